@@ -191,7 +191,7 @@ def lineage_pairs(h):
 
 def c05_pair(h, ga, gd):
     bad = []
-    m = h.compare_genomes_vertically(ga, gd).map
+    m = ob._PubView(h.compare_genomes_vertically(ga, gd))      # through get_lost / get_gained / get_retained / get_duplicated
     dl = [x for v in m.DUPLICATE.values() for x in v]
     if collections.Counter(map(id, gd.genes)) != collections.Counter(map(id, list(m.GAIN) + list(m.RETAINED.values()) + dl)):
         bad.append('descendant genome not partitioned (%s vs %s)' % (ga.name, gd.name))
@@ -435,9 +435,47 @@ def c10(D, h):
     return bad
 
 # ---------------------------------------------------------------------------------------- C16
+def spoil(x):
+    """what a caller may do to a container it was handed"""
+    try:
+        if isinstance(x, list):
+            x.append(x[0] if x else None); x.reverse()
+        elif isinstance(x, dict):
+            for k in list(x):
+                v = x[k]
+                if isinstance(v, list):
+                    v.clear()
+            x.clear()
+        elif isinstance(x, set):
+            x.clear()
+    except Exception:      # noqa
+        pass
+
+def fresh_results(calls):
+    """calls: [(description, function returning a container, function rendering it)].  On the unchanged tree each of these
+    accessors hands out a container of its own; modifying it must not change what the next call returns."""
+    bad = []
+    for what, f, render in calls:
+        try:
+            r1 = f(); before = render(r1)
+            spoil(r1)
+            if render(f()) != before:
+                bad.append('%s returns something else after the caller modified the container it was given' % what)
+        except Exception as e:      # noqa
+            bad.append('%s raised %s' % (what, type(e).__name__))
+    return bad
+
 def c16(D, h):
     bad = []
     gs = genomes_of(h)
+    ids = lambda xs: sorted(map(id, xs))
+    for top in h.get_list_top_level_hogs()[:3]:
+        bad += fresh_results([
+            ('get_all_descendant_genes of %s' % nodekey(top), top.get_all_descendant_genes, ids),
+            ('get_all_descendant_hogs of %s' % nodekey(top), top.get_all_descendant_hogs, ids),
+            ('get_all_descendant_hog_levels of %s' % nodekey(top), top.get_all_descendant_hog_levels, ids),
+            ('get_all_descendant_genes_clustered_by_species of %s' % nodekey(top), top.get_all_descendant_genes_clustered_by_species,
+             lambda d: sorted((id(k), ids(v)) for k, v in d.items()))])
     for tid, top in h.get_dict_top_level_hogs().items():
         fam = list(all_nodes(top))
         for n in fam:
